@@ -226,12 +226,19 @@ pub fn replay(a: &Args) -> Report {
         "P" => {
           let r = guard(|| next[sc.i - 1].puncture(sc.t));
           let ok = matches!(r, Guard::Done(Ok(())));
+          // C14 speaks about ANSWERS, not about what puncture() returns: puncturing a tag that
+          // answers must work (or it could never stop answering); what the call returns for an
+          // unregistered or an already punctured tag is the implementation's business
           if ok != sc.ok {
+            rep.count("puncture_results_differing_from_reference_model", 1);
+          }
+          if !ok && rec.ans[sc.i - 1].contains(&sc.t) {
             rep.violation(
               "C14",
               "Server::puncture",
-              if sc.ok { "puncture-refused" } else { "repuncture-accepted" },
-              format!("puncture({}) on instance {}: spec ok={}, implementation ok={ok}", sc.t, sc.i, sc.ok),
+              "puncture-refused",
+              format!("puncture({}) on instance {} refused although the tag is registered and unpunctured{}", sc.t, sc.i,
+                if r.is_panic() { " (panic)" } else { "" }),
               json!({"history": hj2}),
             );
             continue;
@@ -471,7 +478,7 @@ pub fn alltags(a: &Args) -> Report {
     for md in order {
       let r = guard(|| s.puncture(md));
       rep.evaluations += 1;
-      if !matches!(r, Guard::Done(Ok(()))) {
+      if !matches!(r, Guard::Done(Ok(()))) && (tags.contains(&md) || r.is_panic()) {
         rep.violation("C14", "Server::puncture", "alltags:puncture-refused",
           format!("puncture({md}) refused after {} punctures", punct.len()), json!({"tags": name, "tag": md, "punctured_before": punct.len()}));
         continue;
